@@ -178,9 +178,9 @@ def simE (P P' : Prog) (Γ : SEnv) (S T : List String) : Expr → Expr → Optio
     match e' with
     | .prim q => if primEq p q then some .any else none
     | _ => none
-  | .tag i _, e' =>
+  | .tag i ty, e' =>
     match e' with
-    | .tag j _ => if i == j then some .any else none
+    | .tag j ty' => if i == j && Sem.tagTyName ty == Sem.tagTyName ty' then some .any else none
     | _ => none
   | .constr c _ args, e' =>
     match e' with
